@@ -162,6 +162,10 @@ func runLifeCase(c *LCase) {
 	r := NewRNG(c.Seed)
 	set := mkSetting(fmt.Sprintf("life-%d", c.Index), "default", c.Mode, c.Max, c.Min, c.Init.Ante, c.Init.Dealer, c.Init.SB, c.Init.BB, c.Init.Level, 10)
 	n := 2 + r.Intn(c.Max-1)
+	bustArrival := c.Directed == "bust_arrival"
+	if bustArrival {
+		n = 2 // heads-up, both all-in with equal stacks: one of them busts in the first hand (unless they split)
+	}
 	if c.JoinAtCreate {
 		for i := 0; i < n; i++ {
 			set.JoinPlayers = append(set.JoinPlayers, pt.JoinPlayer{PlayerID: pid(i + 1), RedeemChips: int64(20 + r.Intn(400)), Seat: -1})
@@ -179,6 +183,9 @@ func runLifeCase(c *LCase) {
 	if !c.JoinAtCreate {
 		for i := 0; i < n; i++ {
 			chips := int64(20 + r.Intn(400))
+			if bustArrival {
+				chips = 200
+			}
 			d.te.PlayerReserve(pt.JoinPlayer{PlayerID: pid(i + 1), RedeemChips: chips, Seat: -1})
 		}
 	}
@@ -187,6 +194,10 @@ func runLifeCase(c *LCase) {
 	d.takeEvents()
 	next := n + 1
 	pol := &Policy{R: r.Fork(3), FoldPct: 20, AllinPct: 25, RaisePct: 20}
+	if bustArrival {
+		pol = &Policy{R: r.Fork(3), FoldPct: 0, AllinPct: 100, RaisePct: 0}
+	}
+	arrivals := 0
 	step := func(op string, f func(s *LStep)) *LStep {
 		s := LStep{Op: op, Pre: lr.quiescentObs()}
 		f(&s)
@@ -275,6 +286,38 @@ func runLifeCase(c *LCase) {
 	for k := 0; k < 90; k++ {
 		pre := lr.quiescentObs()
 		x := r.Intn(100)
+		if bustArrival {
+			x = 50
+			if pre.GC >= 2 {
+				// from the second hand on the table is driven like any other
+				bustArrival = false
+				pol = &Policy{R: r.Fork(4), FoldPct: 20, AllinPct: 25, RaisePct: 20}
+			} else if pre.Status == "table_game_playing" && pre.GC == 1 && arrivals < 1+int(c.Seed%2) {
+				// newcomers sit down while the first hand runs, on any free seat (also between the button and the big blind)
+				arrivals++
+				id := next
+				next++
+				taken := map[int]bool{}
+				for _, p := range d.te.GetTable().State.PlayerStates {
+					taken[p.Seat] = true
+				}
+				var free []int
+				for st := 0; st < c.Max; st++ {
+					if !taken[st] {
+						free = append(free, st)
+					}
+				}
+				if len(free) > 0 {
+					seat := free[r.Intn(len(free))]
+					step("reserve", func(s *LStep) {
+						if d.te.PlayerReserve(pt.JoinPlayer{PlayerID: pid(id), RedeemChips: int64(100 + r.Intn(300)), Seat: seat}) == nil {
+							d.JoinAndSettle(pid(id))
+						}
+					})
+					continue
+				}
+			}
+		}
 		// occasional external operations, at any quiescent point (between or during hands)
 		switch {
 		case x < 7:
@@ -499,6 +542,14 @@ func genLife(root *RNG, i int, seed uint64, mode string) LCase {
 			c.Init = TBlind{Level: 0, Ante: -1, Dealer: -1, SB: -1, BB: -1}
 		}
 		c.Directed = "create_only"
+		return c
+	}
+	if mode == "bust_arrival" {
+		// heads-up, one of the two busts in the first hand while newcomers have sat down during it: the table must deal on
+		c.Directed = "bust_arrival"
+		c.Mode, c.Min, c.JoinAtCreate = "ct", 2, false
+		c.Max = 3 + r.Intn(7)
+		c.Init = TBlind{Level: 1, Ante: int64(r.Intn(2) * 5), Dealer: 0, SB: 10, BB: 20}
 		return c
 	}
 	if mode == "late_level" || r.Chance(1, 12) {
